@@ -81,6 +81,7 @@ func (m *Matcher) Loop() {
 		if stop {
 			break
 		}
+		verifPoint("matcher.request", 0)
 
 		cacheCleared := false
 		if request.sort != m.sort || request.revision != m.revision {
@@ -116,7 +117,11 @@ func (m *Matcher) Loop() {
 			merger, cancelled = m.scan(request)
 		}
 
+		if cancelled {
+			verifPoint("matcher.cancelled", 0)
+		}
 		if !cancelled {
+			verifPoint("matcher.publish", merger.Length())
 			if merger.cacheable() {
 				m.mergerCache[patternString] = merger
 			}
@@ -186,6 +191,7 @@ func (m *Matcher) scan(request MatchRequest) (*Merger, bool) {
 				matches := request.pattern.Match(chunk, slab)
 				allMatches[idx] = matches
 				count += len(matches)
+				verifPoint("scan.chunk", idx)
 				if cancelled.Get() {
 					return
 				}
@@ -221,6 +227,7 @@ func (m *Matcher) scan(request MatchRequest) (*Merger, bool) {
 		if count == numChunks {
 			break
 		}
+		verifPoint("scan.count", count)
 
 		if m.reqBox.Peek(reqReset) {
 			return nil, wait()
